@@ -444,3 +444,120 @@ def run_loop_case(case):
             "sink_buffer": [list(r) for r in sink.recv_buffer], "sink_nse": sink.next_seq_expected,
             "la": s.last_ack, "ns": s.next_seq, "timers_left": sorted(s.timers), "sent_left": sorted(s.sent_packets),
             "fin": bool(s._finished)}
+
+
+# ------------------------------------------------------------------------------------------------
+# second tie (DESIGN 2.6): fail-closed translation of the CongestionControl method bodies into
+# coq/Gen/Extracted_cc.v.  Whitelisted subset: `self.x = e`, `self.x += e`, one-level if/else on a
+# comparison, expressions over self.mss / self.cwnd / self.ssthresh, integer constants, + - * /, max, min.
+
+
+class TranslatorError(Exception):
+    pass
+
+
+CC_FIELDS = ("mss", "cwnd", "ssthresh")
+CC_METHODS = [("CongestionControl", "timer_expired"), ("CongestionControl", "dupack_over"),
+              ("CongestionControl", "consecutive_dupacks_received"), ("CongestionControl", "more_dupacks_received"),
+              ("TCPReno", "ack_received")]
+
+
+def _tr_expr(e, st):
+    import ast
+    if isinstance(e, ast.Attribute) and isinstance(e.value, ast.Name) and e.value.id == "self" and e.attr in CC_FIELDS:
+        return f"(x_{e.attr} {st})"
+    if isinstance(e, ast.Constant) and isinstance(e.value, int) and not isinstance(e.value, bool):
+        return f"(({e.value})%Z # 1)"
+    if isinstance(e, ast.BinOp) and type(e.op) in (ast.Add, ast.Sub, ast.Mult, ast.Div):
+        op = {ast.Add: "+", ast.Sub: "-", ast.Mult: "*", ast.Div: "/"}[type(e.op)]
+        return f"({_tr_expr(e.left, st)} {op} {_tr_expr(e.right, st)})%Q"
+    if isinstance(e, ast.Call) and isinstance(e.func, ast.Name) and e.func.id in ("max", "min") and len(e.args) == 2 and not e.keywords:
+        a, b = _tr_expr(e.args[0], st), _tr_expr(e.args[1], st)
+        if e.func.id == "max":          # Python: b if b > a else a
+            return f"(if Qle_bool {b} {a} then {a} else {b})"
+        return f"(if Qle_bool {a} {b} then {a} else {b})"   # min: b if b < a else a
+    raise TranslatorError("expression outside the translated subset: " + ast.dump(e)[:120])
+
+
+def _tr_cond(t, st):
+    import ast
+    if isinstance(t, ast.Compare) and len(t.ops) == 1 and len(t.comparators) == 1:
+        a, b = _tr_expr(t.left, st), _tr_expr(t.comparators[0], st)
+        op = type(t.ops[0])
+        if op is ast.LtE:
+            return f"Qle_bool {a} {b}"
+        if op is ast.GtE:
+            return f"Qle_bool {b} {a}"
+        if op is ast.Lt:
+            return f"negb (Qle_bool {b} {a})"
+        if op is ast.Gt:
+            return f"negb (Qle_bool {a} {b})"
+    raise TranslatorError("condition outside the translated subset: " + ast.dump(t)[:120])
+
+
+def _tr_block(stmts, depth=0):
+    """returns a Coq expression of type ccst with free variable s"""
+    import ast
+    if not stmts:
+        return "s"
+    st, rest = stmts[0], stmts[1:]
+    if isinstance(st, ast.Expr) and isinstance(st.value, ast.Constant) and isinstance(st.value.value, str):
+        return _tr_block(rest, depth)
+    if isinstance(st, ast.Pass):
+        return _tr_block(rest, depth)
+    if isinstance(st, (ast.Assign, ast.AugAssign)):
+        tgt = st.targets[0] if isinstance(st, ast.Assign) else st.target
+        if isinstance(st, ast.Assign) and len(st.targets) != 1:
+            raise TranslatorError("multiple assignment targets")
+        if not (isinstance(tgt, ast.Attribute) and isinstance(tgt.value, ast.Name) and tgt.value.id == "self"
+                and tgt.attr in ("cwnd", "ssthresh")):
+            raise TranslatorError("assignment target outside the translated subset: " + ast.dump(tgt)[:120])
+        val = _tr_expr(st.value, "s")
+        if isinstance(st, ast.AugAssign):
+            if not isinstance(st.op, ast.Add):
+                raise TranslatorError("augmented assignment other than +=")
+            val = f"((x_{tgt.attr} s) + {val})%Q"
+        return f"(let s := set_{tgt.attr} s {val} in {_tr_block(rest, depth)})"
+    if isinstance(st, ast.If) and depth == 0:
+        c = _tr_cond(st.test, "s")
+        return f"(let s := (if {c} then {_tr_block(st.body, 1)} else {_tr_block(st.orelse, 1)}) in {_tr_block(rest, depth)})"
+    raise TranslatorError("statement outside the translated subset: " + ast.dump(st)[:120])
+
+
+def translate_cc(repo):
+    """Coq source of Gen/Extracted_cc.v for the tcp_generator.py of `repo`"""
+    import ast
+    import os
+    path = os.path.join(repo, "onl", "packet", "tcp_generator.py")
+    tree = ast.parse(open(path).read())
+    classes = {n.name: n for n in tree.body if isinstance(n, ast.ClassDef)}
+    out = ["(* GENERATED by props/tcp_common.py:translate_cc from onl/packet/tcp_generator.py -- do not edit.",
+           "   Bodies of the CongestionControl methods, statement by statement. *)",
+           "From Coq Require Import ZArith QArith.",
+           "Record ccst := mkcc { x_mss : Q; x_cwnd : Q; x_ssthresh : Q }.",
+           "Definition set_cwnd (s : ccst) (v : Q) : ccst := mkcc (x_mss s) v (x_ssthresh s).",
+           "Definition set_ssthresh (s : ccst) (v : Q) : ccst := mkcc (x_mss s) (x_cwnd s) v."]
+    for cname, mname in CC_METHODS:
+        if cname not in classes:
+            raise TranslatorError(f"class {cname} not found")
+        fns = [n for n in classes[cname].body if isinstance(n, ast.FunctionDef) and n.name == mname]
+        if len(fns) != 1:
+            raise TranslatorError(f"{cname}.{mname} not found exactly once")
+        fn = fns[0]
+        if fn.decorator_list:
+            raise TranslatorError(f"{cname}.{mname} is decorated")
+        out.append(f"Definition g_{cname}_{mname} (s : ccst) : ccst := {_tr_block(fn.body)}.")
+    return "\n".join(out) + "\n"
+
+
+def write_extracted_cc(repo, verif):
+    import os
+    src = translate_cc(repo)
+    d = os.path.join(verif, "coq", "Gen")
+    os.makedirs(d, exist_ok=True)
+    p = os.path.join(d, "Extracted_cc.v")
+    old = open(p).read() if os.path.exists(p) else None
+    if old != src:
+        with open(p, "w") as fh:
+            fh.write(src)
+    return p
